@@ -36,8 +36,8 @@ def mod_prefix(mod):
     return mod[:-3].replace("/", "::") + "::__verif"
 
 
-def K(name, props, mod, h, function, contract, file=None, kind="full-domain", **kw):
-    o = {"name": name, "props": props, "engine": "kani", "harness": mod_prefix(mod) + "::k::" + h,
+def K(name, props, mod, h, function, contract, file=None, kind="full-domain", kmod="k", **kw):
+    o = {"name": name, "props": props, "engine": "kani", "harness": mod_prefix(mod) + "::" + kmod + "::" + h,
          "function": function, "file": SRC + (file or mod), "contract": contract, "kind": kind}
     o.update(kw)
     OBLIGATIONS.append(o)
@@ -101,6 +101,40 @@ prop("C02", "Each sink through which input characters reach the output has an es
 prop("C08", "Same sink contracts as C02, read as: no markup-significant character leaves a sink unescaped; "
             "identifier character classes exclude markup-significant characters for every char.",
      ["sauron-core 0.61.9 renders Leaf::Text and attribute values verbatim"])
+
+prop("C01", "One obligation per panic site reachable from the entry points (precondition / guard), termination of the two "
+            "recursive fix-points, totality of the float comparisons; see DESIGN.md C01.",
+     ["no panic inside parry2d, nalgebra, sauron, pom, unicode-width, itertools, std for the arguments svgbob passes",
+      "polynomial time bound and stack depth are not decided by this family (termination and linear recursion depth are)"])
+prop("C03", "Stroke preservation of everything after the per-character tables: Line::merge (hull, broken flag), endorse_rect "
+            "(exact four sides), Fragment::merge dispatch, CellText never becomes geometry; table rows bounded.",
+     ["PropertyBuffer / FragmentBuffer hand every cell its actual eight neighbours and keep all fragments (map glue)"])
+prop("C04", "CellText well-formedness (cells <-> characters over display columns) through new / merge / absolute_position / -> Text.",
+     ["Span / Contacts / Endorse plumbing neither drops nor duplicates a CellText"])
+prop("C05", "Soundness of is_rect / endorse_rect / is_rounded_rect as post-conditions over 4 (8) symbolic fragments; "
+            "completeness for the canonical 4-line box.",
+     ["characters of every box style produce the four (eight) fragments (table rows)", "contact grouping puts exactly them into one Contacts"])
+prop("C06", "Every absolute_position / localize is an exact translation; every geometric predicate svgbob implements is "
+            "translation invariant on the lattice.",
+     ["parry2d Segment::contains_point decides exact on-segment membership for lattice arguments",
+      "the catalogue match depends only on the localized span"])
+prop("C09", "Line::merge contract, is_collinear / is_touching contracts, merge_recursive fix-point and termination.",
+     ["all fragments of a span reach one merge_recursive call; lines are emitted once each"])
+prop("C10", "Adjacency lemma, span-merge contract, partition invariant of the generic merge.",
+     ["Span::endorse and everything below read only the span and the immutable tables (by typing)"])
+prop("C11", "Whole-struct post-condition of every scale method: each length field = field x s (IEEE product), every other field "
+            "unchanged; get_size formula.",
+     ["fl(v*fl(s*f)) vs f*fl(v*s): IEEE rounding (within 2 ulp), the statement's 'multiplies by f' is read up to that rounding",
+      "products of |v| <= 2^24 and s <= 2^10 are finite (magnitude argument, not machine-checked)"])
+prop("C12", "Canvas formula, margin lemma, bounds of every shape enclose its points.",
+     ["table behaviours only reference neighbour-cell points when that neighbour is occupied"])
+prop("C13", "CircleArt radius / centre / extent contracts for all widths; is_subset_of; catalogue rows exhaustively.", [])
+prop("C14", "merge_circle, Arc constructors' normalisation, polygon tag tables, marker rendering.", ["hand-written polygon / arc table rows only bounded"])
+prop("C15", "escape_line contract (bounded: pom grammar is outside both verifiers); quoted text never enters the cell map.", [])
+prop("C16", "legend / tag grammars bounded; enclose_deep_first innermost-enclosing contract; legend_css format.", [])
+prop("C17", "blank / NUL filter over all chars; legend grammar under CRLF bounded; str::lines assumed.", ["str::lines strips \\n and \\r\\n (std)"])
+prop("C18", "fragments_to_node child list over the 8 switch combinations; size override frame condition; entry point equalities.",
+     ["compressed vs pretty rendering differ only by indentation (sauron)"])
 
 K("text.replace_html_char", ["C02", "C08"], TEXT, "check_replace_html_char", "replace_html_char",
   "for every char c: entity if c in {<,>,&,',\"}; empty iff XML 1.0 cannot represent c; else exactly c")
@@ -181,3 +215,48 @@ K("L1.rect_ctors", ["C05"], RECT, "check_rect_ctors", "Rect::new / rounded_new /
   "same two corners ordered; radius as given; flags kept")
 K("C06.rect_absolute_position", ["C06"], RECT, "check_rect_absolute_position", "Rect::absolute_position", "corners translated exactly; rest unchanged")
 K("N4.rect_bounds", ["C12"], RECT, "check_rect_bounds", "Rect::bounds", "box of the corners")
+
+MLINE = "buffer/fragment_buffer/fragment/marker_line.rs"
+POLY = "buffer/fragment_buffer/fragment/polygon.rs"
+K("C11.marker_line_scale", ["C11"], MLINE, "check_marker_line_scale", "MarkerLine::scale", "line scaled; is_broken and both markers unchanged")
+K("C06.marker_line_absolute_position", ["C06", "C14"], MLINE, "check_marker_line_absolute_position", "MarkerLine::absolute_position / new / bounds",
+  "line translated exactly, end points never swapped (marked end stays marked), markers unchanged")
+for _n in (3, 4):
+    K("C11.polygon_scale%d" % _n, ["C11"], POLY, "check_polygon_scale%d" % _n, "Polygon::scale", "every point = IEEE product with s; count, fill, tags unchanged",
+      kind="bounded", bound="polygons with exactly %d points, one tag (the tables only build 3- and 4-point polygons)" % _n, timeout=300)
+    K("C06.polygon_absolute_position%d" % _n, ["C06"], POLY, "check_polygon_absolute_position%d" % _n, "Polygon::absolute_position",
+      "every point translated exactly; rest unchanged", kind="bounded", bound="polygons with exactly %d points" % _n, timeout=300)
+K("C14.polygon_tags", ["C14"], POLY, "check_polygon_tags", "PolygonTag::direction / get_marker / matched_direction; Polygon::get_marker / matched_direction",
+  "tag -> direction / marker tables as documented")
+
+ALPHA = "content from a fixed alphabet of 10 strings (ASCII, 2-byte Latin, wide CJK, combining mark, 2-char mixtures)"
+K("T1.celltext_new_anchor", ["C04", "C06"], TEXT, "check_celltext_new_and_anchor", "CellText::new / absolute_position / From<CellText> for Text",
+  "content and cell kept; text anchored at q = origin + (0.25, 1.5), strictly inside the first character's cell; all valid cells",
+  kind="bounded", bound="content fixed to the multi-byte string \"é\" (the functions only move the String); cells symbolic", kmod="k2")
+K("C11.text_scale", ["C11"], TEXT, "check_text_scale", "Text::scale", "anchor = IEEE product with s; text unchanged", kind="bounded",
+  bound="content fixed to \"é\"; anchor and scale symbolic", kmod="k2")
+K("C06.text_absolute_position", ["C06"], TEXT, "check_text_absolute_position", "Text::absolute_position", "anchor translated exactly; text unchanged",
+  kind="bounded", bound="content fixed to \"é\"; anchor and cell symbolic", kmod="k2")
+B("T2.celltext_columns_all_chars", ["C04"], TEXT, "bounded_celltext_columns_all_chars", "CellText::end_cell (columns) vs StringBuffer::from",
+  "for every char: a one-character CellText spans exactly the columns StringBuffer allots to that character",
+  "exhaustive over all 1,114,111 chars (single-character strings), natively")
+B("T3.celltext_merge", ["C04", "C03"], TEXT, "bounded_celltext_merge", "CellText::can_merge / merge",
+  "can_merge <=> same row and consecutive display columns; merge = left content ++ right content at the left start (whole view)",
+  ALPHA + " x same/next row x column offsets -7..7 (3000 pairs); Kani: String building exceeds the budget (300 s timeout measured)")
+B("T5.celltext_cells", ["C04", "C12"], TEXT, "bounded_celltext_cells", "CellText::cells / end_cell / bounds",
+  "consecutive cells, as many as display columns; bounds from the start cell to the end cell", ALPHA + " x 4 columns")
+
+FRAG = "buffer/fragment_buffer/fragment.rs"
+for _v in ("line", "marker_line", "circle", "arc", "rect"):
+    K("C11.fragment_scale_dispatch_" + _v, ["C11"], FRAG, "check_fragment_scale_dispatch_" + _v, "Fragment::scale (%s)" % _v,
+      "same variant; every point and radius = IEEE product with s; flags and markers unchanged", timeout=300)
+    K("C06.fragment_absolute_position_dispatch_" + _v, ["C06"], FRAG, "check_fragment_absolute_position_dispatch_" + _v,
+      "Fragment::absolute_position (%s)" % _v, "same variant; exact translation; rest unchanged", timeout=300)
+K("C03.fragment_merge_dispatch", ["C03", "C09", "C14"], FRAG, "check_fragment_merge_dispatch", "Fragment::merge",
+  "(Line,Line) iff Line::merge, result Line; (Line,Circle) iff merge_circle, result MarkerLine; no other geometric pair merges",
+  assumes=["Line::merge / Line::merge_circle replaced by opaque results (their contracts: LM.line_merge, C14.line_merge_circle)"], timeout=300)
+K("T1.cell_text_all_chars", ["C04", "C03"], FRAG, "check_cell_text_all_chars", "fragment::cell_text",
+  "for every char: CellText at local cell (0,0) whose content is exactly that character")
+K("A4.fragment_can_fit", ["C10", "C16"], FRAG, "check_fragment_can_fit", "Fragment::can_fit",
+  "can_fit <=> the container's bounds() contain the content's bounds() (all four comparisons)",
+  assumes=["<Fragment as Bounds>::bounds replaced by opaque results (per-type contracts: N4.*_bounds)"])
